@@ -446,3 +446,63 @@ package state
 //@ ensures[commit-iff-ok] commits() == ite(err == nil, old(commits()) + 1, old(commits()))
 //@ ensures[session-gone] err == nil ==> T_sessions(sessionID) == nil
 //@ ensures[invalidated] err == nil && old(T_sessions(sessionID)) != nil ==> noLocksOf(sessionID) && noCheckLinksOf(sessionID) && noQueriesOf(sessionID)
+
+// ---- C05: transactions
+
+//@ file txn.go
+
+// The per-family verbs below (catalog verbs reach several thousand lines of catalog.go) are ASSUMED to touch only
+// the transaction's tables and never to commit; what C05 proves is the commit discipline around them.
+//@ func Store.txnKVS
+//@ props C03 C05 C10
+//@ results res, err
+//@ requires op != nil
+//@ ensures[never-commits] commits() == old(commits())
+//@ ensures[cas-reports-mismatch] op.Verb == api.KVCAS && !((old(op.DirEnt.ModifyIndex) == 0 && old(T_kvs(op.DirEnt.Key)) == nil) || (old(op.DirEnt.ModifyIndex) != 0 && old(T_kvs(op.DirEnt.Key)) != nil && old(T_kvs(op.DirEnt.Key).ModifyIndex) == old(op.DirEnt.ModifyIndex))) ==> err != nil
+//@ ensures[delete-cas-reports-mismatch] op.Verb == api.KVDeleteCAS && old(T_kvs(op.DirEnt.Key)) != nil && old(T_kvs(op.DirEnt.Key).ModifyIndex) != old(op.DirEnt.ModifyIndex) ==> err != nil
+//@ ensures[lock-reports-held] op.Verb == api.KVLock && old(T_kvs(op.DirEnt.Key)) != nil && old(T_kvs(op.DirEnt.Key).Session) != "" && old(T_kvs(op.DirEnt.Key).Session) != old(op.DirEnt.Session) ==> err != nil
+//@ ensures[unlock-reports-not-holder] op.Verb == api.KVUnlock && (old(T_kvs(op.DirEnt.Key)) == nil || old(T_kvs(op.DirEnt.Key).Session) != old(op.DirEnt.Session)) ==> err != nil
+//@ ensures[check-index] op.Verb == api.KVCheckIndex && err == nil ==> T_kvs(op.DirEnt.Key) != nil && T_kvs(op.DirEnt.Key).ModifyIndex == op.DirEnt.ModifyIndex
+//@ ensures[check-session] op.Verb == api.KVCheckSession && err == nil ==> T_kvs(op.DirEnt.Key) != nil && T_kvs(op.DirEnt.Key).Session == op.DirEnt.Session
+//@ ensures[check-not-exists] op.Verb == api.KVCheckNotExists && err == nil ==> T_kvs(op.DirEnt.Key) == nil
+//@ ensures[get-missing-is-error] op.Verb == api.KVGet && err == nil ==> T_kvs(op.DirEnt.Key) != nil
+//@ ensures[set-applies] op.Verb == api.KVSet && err == nil ==> T_kvs(op.DirEnt.Key) != nil
+//@ ensures[delete-applies] op.Verb == api.KVDelete && err == nil ==> T_kvs(op.DirEnt.Key) == nil
+//@ ensures[delete-tree-applies] op.Verb == api.KVDeleteTree && err == nil ==> forall k string :: prefixOf(op.DirEnt.Key, k) ==> T_kvs(k) == nil
+//@ ensures[reads-do-not-write] (op.Verb == api.KVGet || op.Verb == api.KVGetTree || op.Verb == api.KVCheckIndex || op.Verb == api.KVCheckSession || op.Verb == api.KVCheckNotExists) ==> (forall k string :: T_kvs(k) == old(T_kvs(k))) && (forall t string :: T_index(t) == old(T_index(t)))
+//@ func Store.txnNode
+//@ trusted
+//@ results res, err
+//@ func Store.txnService
+//@ trusted
+//@ results res, err
+//@ func Store.txnCheck
+//@ trusted
+//@ results res, err
+//@ func txnLegacyIntention
+//@ trusted
+//@ results err
+
+//@ func Store.txnDispatch
+//@ props C05
+//@ results results, errs
+//@ requires forall j int :: 0 <= j && j < len(ops) ==> ops[j] != nil
+//@ ensures[errors-exclude-results] len(errs) > 0 ==> len(results) == 0
+//@ ensures[never-commits] commits() == old(commits())
+//@ ensures[at-most-one-error-per-op] len(errs) <= len(ops)
+//@ loop 1 invariant[never-commits] commits() == old(commits())
+//@ loop 1 invariant[errors-bounded] len(errs) <= range1_idx
+
+//@ func Store.TxnRW
+//@ props C05
+//@ results results, errs
+//@ requires forall j int :: 0 <= j && j < len(ops) ==> ops[j] != nil
+//@ ensures[any-error-nothing-committed] len(errs) > 0 ==> len(results) == 0 && commits() == old(commits())
+//@ ensures[success-commits-exactly-once] len(errs) == 0 ==> commits() == old(commits()) + 1
+
+//@ func Store.TxnRO
+//@ props C05
+//@ results results, errs
+//@ requires forall j int :: 0 <= j && j < len(ops) ==> ops[j] != nil
+//@ ensures[read-only-never-commits] commits() == old(commits())
+//@ ensures[errors-exclude-results] len(errs) > 0 ==> len(results) == 0
